@@ -20,6 +20,7 @@ import Influx.Lemmas.TsmSpecTs
 import Influx.Lemmas.TsmReader
 import Influx.Lemmas.TsmSpecFileTrace
 import Influx.Lemmas.TsmSpecCover
+import Influx.Lemmas.TsmBlocks
 
 namespace Influx.Props.C08
 open Influx.Tsm Influx.Spec.C08
@@ -34,6 +35,13 @@ open Influx.Tsm Influx.Spec.C08
 theorem C08_roundtrip (crc : Bytes → Nat) (kbs : List (Key × List Blk)) (h : WFFile kbs) :
     parseFile (serialise crc kbs) = .ok (layout 5 kbs) :=
   parseFile_serialise crc kbs h
+
+/-- **the blocks read back**: the index entries of the file, in order, locate exactly the
+    checksum and the bytes of every block written, in order (`ReadBytes`, `BlockIterator`);
+    for any checksum function with 32-bit values. -/
+theorem C08_blocks_read_back (crc : Bytes → Nat) (hcrc : ∀ d, crc d < 4294967296) (kbs : List (Key × List Blk)) :
+    ((layout 5 kbs).flatMap (·.entries)).map (readBytes (serialise crc kbs)) =
+      (allBlocks kbs).map fun b => some (crc b.data, b.data) := readBytes_serialise crc hcrc kbs
 
 /-- big-endian integers read back (the base of every field of the format) -/
 theorem be_roundtrip (n v : Nat) : unbe (be n v) = v % 256 ^ n := unbe_be n v
